@@ -1,23 +1,190 @@
 /-
 Property C02 — licence, copyright and contributor tags are read exactly, in any comment syntax.
+
+The reader is `Model.findSpdxTagWith endRe tag` (mirror of `^(.*?)TAG[ \t]+(.*?)END$` with
+`findall`, then the loop body of `find_spdx_tag`), `Model.searchLineWith` for the three
+copyright patterns, `Model.infoOfFile` for the window / decoder / parse-error logic of
+`reuse_info_of_file`.  A physical tag line is `pre ++ tag ++ blanks ++ w ++ trail ++ le`
+(`Spec/Tags.lean`).  The theorems hold for every END expression `endRe` (in particular the one
+generated from the source, `Generated.endRe`) and are unbounded in the value, the decoration and
+the number of stacked terminators.
 -/
-import ReuseVerif.Spec.Tags
+import ReuseVerif.Lemmas.TagsClean
+import ReuseVerif.Lemmas.TagsEnd
 
 namespace C02
 open Py Model Spec
 
+/-! ### the value is read exactly -/
+
+/-- The regular expression captures exactly `(pre, w)` on a well-formed line. -/
+theorem C02_tag_match_exact (endRe : Re) (tag pre blanks w trail le : Text)
+    (h : WFRaw endRe tag pre blanks w trail le = true) :
+    findAllWith endRe tag ((tagLine pre tag blanks w trail le).length + 1) (tagLine pre tag blanks w trail le) =
+      [(pre, w)] :=
+  findAll_line endRe tag pre blanks w trail le _ h
+
+/-- **Read-back of a tag value.**  For every END expression, every tag, every line prefix without
+    an earlier `TAG[ \t]`, any positive number of blanks and tabs, every value `v` satisfying
+    `WFValue` and every trail that END accepts up to the line end: `find_spdx_tag` returns exactly
+    `[v]`.  Nothing of the decoration becomes part of the value and nothing of the value is lost. -/
+theorem C02_tag_value_exact (endRe : Re) (tag pre blanks v trail le : Text)
+    (h : WFValue endRe tag pre blanks v trail le = true) :
+    findSpdxTagWith endRe tag (tagLine pre tag blanks v trail le) = [v] := by
+  unfold WFValue at h
+  simp only [Bool.and_eq_true] at h
+  obtain ⟨⟨hraw, hs⟩, hf⟩ := h
+  unfold findSpdxTagWith
+  rw [findAll_line endRe tag pre blanks v trail le _ hraw]
+  simp only [List.map_cons, List.map_nil, cleanTag_plain pre v hs hf]
+
+/-- the hypotheses are satisfiable: ` * SPDX-License-Identifier: \t(MIT AND BSD-3-Clause) OR GPL-2.0+ \t*/ --> ` + "\n" -/
+example : WFValue Generated.endRe Generated.licenseTag " * ".toList " \t".toList
+    "(MIT AND BSD-3-Clause) OR GPL-2.0+".toList
+    ([" ".toList, "\t".toList, "*/".toList, " ".toList, "-->".toList, " ".toList] : List Text).flatten "\n".toList = true :=
+  wfValue_of_safe_last Generated.endRe _ rfl _ _ _ _ _ _ (by decide +kernel) (by decide +kernel) (by decide +kernel)
+    (by decide +kernel) (by decide +kernel)
+
+/-- **ASCII-art frames.**  When the value is followed by white space and the mirror image of the
+    (stripped) line prefix, exactly that mirrored frame is removed: the result is `[v]`. -/
+theorem C02_frame (endRe : Re) (tag pre blanks v ws trail le : Text)
+    (h : WFFramed endRe tag pre blanks v ws trail le = true) :
+    findSpdxTagWith endRe tag (tagLine pre tag blanks (v ++ ws ++ mirror pre) trail le) = [v] := by
+  unfold WFFramed at h
+  simp only [Bool.and_eq_true, Bool.not_eq_true'] at h
+  obtain ⟨⟨⟨⟨hraw, hs⟩, hne⟩, hws⟩, hm⟩ := h
+  unfold findSpdxTagWith
+  rw [findAll_line endRe tag pre blanks _ trail le _ hraw]
+  simp only [List.map_cons, List.map_nil, cleanTag_framed pre v ws hs hne hws hm]
+
+/-- the hypotheses are satisfiable: the LLVM frame `|*  SPDX-License-Identifier: MIT  *|` -/
+example : WFFramed Generated.endRe Generated.licenseTag "|*  ".toList " ".toList "MIT".toList "  ".toList
+    ([] : List Text).flatten "\n".toList = true := by
+  have h := wfRaw_of_safe_last Generated.endRe _ rfl Generated.licenseTag "|*  ".toList " ".toList
+    ("MIT".toList ++ "  ".toList ++ mirror "|*  ".toList) "\n".toList [] (by decide +kernel) (by decide +kernel) (by decide +kernel)
+  simp only [WFFramed, h, Bool.true_and, Bool.and_eq_true, Bool.not_eq_true']
+  decide +kernel
+
+/-- … and the frame rule never touches a stripped value that does not itself end like the frame. -/
+theorem C02_frame_never_in_wf_value (pre v : Text) (hs : isStripped v = true) (hf : frameFree pre v = true) :
+    cleanTag (pre, v) = v := cleanTag_plain pre v hs hf
+
+/-! ### comment terminators never become part of the value -/
+
+/-- **Stacked terminators.**  Whatever sequence of pieces follows the value — each a blank, a tab
+    or a terminator that END lists as a literal alternative, in any number and any order — the
+    result is still exactly `[v]`, provided no tail of `v` itself reads as terminators in this
+    line (`noEndSuffixBefore`). -/
+theorem C02_terminators_never_in_value (endRe body : Re) (hstar : starBody endRe = some body)
+    (tag pre blanks v le : Text) (pieces : List Text)
+    (hp : ∀ p ∈ pieces, pieceOk body p = true)
+    (hshape : WFShape tag pre blanks v pieces.flatten le = true)
+    (hv : noEndSuffixBefore endRe v (pieces.flatten ++ le) = true)
+    (hs : isStripped v = true) (hf : frameFree pre v = true) :
+    findSpdxTagWith endRe tag (tagLine pre tag blanks v pieces.flatten le) = [v] := by
+  apply C02_tag_value_exact
+  have hle : isLineEnd le = true := by
+    unfold WFShape at hshape; simp only [Bool.and_eq_true] at hshape; exact hshape.2
+  have hend : endOk endRe (pieces.flatten ++ le) = true := by
+    rw [starBody_eq hstar]; exact endOk_pieces body pieces le hp hle
+  simp [WFValue, WFRaw, hshape, hend, hv, hs, hf]
+
+/-- The same with purely syntactic hypotheses: a value whose last character is one END can never
+    consume (a letter, a digit, `.`, `+`, … — `mayUse` is computed from the expression) is read
+    exactly, whatever terminators are stacked after it. -/
+theorem C02_terminators_safe_last (endRe body : Re) (hstar : starBody endRe = some body)
+    (tag pre blanks v le : Text) (pieces : List Text)
+    (hp : ∀ p ∈ pieces, pieceOk body p = true)
+    (hshape : WFShape tag pre blanks v pieces.flatten le = true)
+    (hlast : ∀ c, v.getLast? = some c → mayUse endRe c = false)
+    (hs : isStripped v = true) (hf : frameFree pre v = true) :
+    findSpdxTagWith endRe tag (tagLine pre tag blanks v pieces.flatten le) = [v] := by
+  have hnl : noNewline v = true := by
+    unfold WFShape at hshape; simp only [Bool.and_eq_true] at hshape; exact hshape.1.1.2
+  exact C02_terminators_never_in_value endRe body hstar tag pre blanks v le pieces hp hshape
+    (noEndSuffix_of_last endRe v _ hnl hlast) hs hf
+
+example : ∃ body, starBody Generated.endRe = some body ∧
+    (∀ p ∈ [" ".toList, "*/".toList, "\t".toList, "-->".toList, "#}".toList, " ".toList], pieceOk body p = true) := by
+  refine ⟨_, rfl, ?_⟩
+  decide +kernel
+
+/-- **Table obligation.**  The END expression generated from the source lists the multi-line
+    terminator of every style of the generated style table (adding a style whose terminator END
+    does not know breaks this). -/
+theorem C02_end_generated : endCoversStyles Generated.endRe Generated.styles = true := by decide +kernel
+
+/-- … hence the terminator of every style, alone after a value, reaches the line end. -/
+theorem C02_style_terminator_accepted (s : Generated.Style) (hs : s ∈ Generated.styles) (hne : s.mEnd.isEmpty = false)
+    (le : Text) (hle : isLineEnd le = true) : endOk Generated.endRe (s.mEnd ++ le) = true := by
+  have h := C02_end_generated
+  unfold endCoversStyles at h
+  cases hb : starBody Generated.endRe with
+  | none => rw [hb] at h; cases h
+  | some body =>
+    rw [hb] at h
+    simp only [List.all_eq_true, Bool.or_eq_true] at h
+    have := (h s hs).resolve_left (by rw [hne]; exact Bool.false_ne_true)
+    have hp : ∀ p ∈ [s.mEnd], pieceOk body p = true := by
+      intro p hp; simp only [List.mem_singleton] at hp; subst hp; simp [pieceOk, this]
+    have := endOk_pieces body [s.mEnd] le hp hle
+    rw [starBody_eq hb]
+    simpa using this
+
+/-! ### an unparseable expression drops the whole file -/
+
 /-- A file holding an unparseable licence expression contributes nothing at all. -/
-theorem C02_parse_error_drops_all (parses : Text → Bool) (text : Text)
-    (h : ∃ x ∈ (extractRaw text).lic, parses x = false) :
-    infoOfDecoded parses text = Extracted.empty := by
+theorem C02_parse_error_drops_all (parses : Text → Bool) (content : Bytes)
+    (h : ∃ x ∈ (extractRaw (decodedText (window content))).lic, parses x = false) :
+    infoOfFile parses content = Extracted.empty := by
   obtain ⟨x, hx, hp⟩ := h
-  unfold infoOfDecoded extractInfo
-  have : (extractRaw text).lic.all parses = false := by
+  unfold infoOfFile infoOfDecoded extractInfo
+  have : (extractRaw (decodedText (window content))).lic.all parses = false := by
     apply Bool.eq_false_iff.mpr
     intro hall
     rw [List.all_eq_true] at hall
     rw [hall x hx] at hp
     cases hp
   simp [this]
+
+/-- Conversely, when every expression parses and there is copyright or licensing information,
+    everything that was read is reported. -/
+theorem C02_parseable_reports_all (parses : Text → Bool) (content : Bytes)
+    (h : ∀ x ∈ (extractRaw (decodedText (window content))).lic, parses x = true)
+    (hne : ((extractRaw (decodedText (window content))).lic.isEmpty &&
+            (extractRaw (decodedText (window content))).cpr.isEmpty) = false) :
+    infoOfFile parses content = extractRaw (decodedText (window content)) := by
+  unfold infoOfFile infoOfDecoded extractInfo
+  have : (extractRaw (decodedText (window content))).lic.all parses = true := List.all_eq_true.mpr h
+  simp [this, hne]
+
+/-! ### the 4 KiB window -/
+
+/-- **Window.**  The file's result is the extraction of the decoded window; the window is the
+    whole content when the snippet indicator occurs anywhere in it, and the first
+    `_HEADER_BYTES` (= 4096, generated) bytes otherwise. -/
+theorem C02_window (parses : Text → Bool) (content : Bytes) :
+    infoOfFile parses content =
+      infoOfDecoded parses (decodedText (if containsSnippet content then content else content.take 4096)) := by
+  rfl
+
+/-- Without a snippet indicator nothing beyond byte 4096 can contribute: the result is that of
+    the file cut at 4096 bytes. -/
+theorem C02_window_ignores_rest (parses : Text → Bool) (content : Bytes) (h : containsSnippet content = false) :
+    infoOfFile parses content = infoOfFile parses (content.take 4096) := by
+  have h2 : containsSnippet (content.take 4096) = false := by
+    cases hc : containsSnippet (content.take 4096) with
+    | false => rfl
+    | true => rw [containsSnippet, bytesContain_take _ _ _ hc] at h; cases h
+  unfold infoOfFile window
+  simp only [h, h2, Bool.false_eq_true, if_false]
+  have : Generated.headerBytes = 4096 := rfl
+  rw [this, List.take_take]
+  simp
+
+/-- With a snippet indicator anywhere in the file the whole file is read. -/
+theorem C02_window_snippet_reads_all (parses : Text → Bool) (content : Bytes) (h : containsSnippet content = true) :
+    infoOfFile parses content = infoOfDecoded parses (decodedText content) := by
+  unfold infoOfFile window; simp [h]
 
 end C02
